@@ -86,8 +86,8 @@ ReadCMS(b, units, w, d, mode) ==
        [] mode = "mean-min" ->
             IF vals[1] = 0 /\ vals[d] = 0 THEN 0
             ELSE LET mm == Srt([i \in 1..d |-> vals[i] - ((total - vals[i]) \div (w - 1))], 1) IN
-                 IF mm[1] < 0 \/ vals[1] < 0 THEN NotComparable       \* floor (Python) and truncation (C) differ on negatives
-                 ELSE IF d % 2 = 0 THEN (mm[d \div 2 + 1] + mm[d \div 2]) \div 2 ELSE mm[d \div 2 + 1]
+                 \* integer division is FLOOR division (the documented Python semantics), also on negative operands
+                 IF d % 2 = 0 THEN (mm[d \div 2 + 1] + mm[d \div 2]) \div 2 ELSE mm[d \div 2 + 1]
 
 FooterOK(b, cellBytes, expected) == Len(b) = cellBytes + Len(expected) /\ SubSeq(b, cellBytes + 1, Len(b)) = expected
 =============================================================================
